@@ -30,6 +30,7 @@ import (
 	"sync"
 	"sync/atomic"
 	"testing"
+	"time"
 
 	"github.com/robinbraemer/event"
 	"go.minekube.com/common/minecraft/component"
@@ -531,9 +532,11 @@ func c08RunInner(c c08Case) (res verifkit.Result) {
 				thisSecret = append(append([]byte(nil), secret16...), 0x11)
 			case "len32":
 				thisSecret = append(append([]byte(nil), secret16...), secret16...)
+			case "len24":
+				thisSecret = append(append([]byte(nil), secret16...), secret16[:8]...)
 			}
 			switch op.Secret {
-			case "valid", "len0", "len15", "len17", "len32":
+			case "valid", "len0", "len15", "len17", "len32", "len24":
 				encSecret = c08RSAEncrypt(wirePub, thisSecret, st)
 				secretRSAOK = true
 			case "garbage":
@@ -700,7 +703,12 @@ func c08RunInner(c c08Case) (res verifkit.Result) {
 						}
 						// The proxy may now run a cipher the client cannot follow: nothing
 						// the client sends from here on has a defined meaning, so the script
-						// ends here and closure is not judged.
+						// ends here and closure is not judged. The proxy still asks the session
+						// server about this join (it has the token and the secret): wait for that
+						// request so that its server id can be compared (bounded; not a verdict).
+						for k := 0; (len(thisSecret) == 24 || len(thisSecret) == 32) && k < 2000 && len(sess.Requests()) == 0; k++ {
+							time.Sleep(time.Millisecond)
+						}
 						stopped = true
 					}
 				} else {
@@ -805,6 +813,16 @@ func c08RunInner(c c08Case) (res verifkit.Result) {
 			}
 			if v := authn.check(token, usedSecret); v != nil {
 				return verifkit.Result{V: v}
+			}
+		}
+		// (3b) an RSA-valid secret of another length: whatever happens to the stream, a
+		// join the proxy asks the session server about is this client's join
+		if oddSecret {
+			for _, r := range reqs {
+				if want := c08ServerID(usedSecret, pubDER); r.ServerID != want || r.Username != loginName {
+					return verifkit.Fail("serverid:mismatch-odd-secret-length", "the client sent a %d-byte shared secret; the session server was asked for serverId=%s username=%q, the digest over that secret and the proxy's key is %s (username %q)", len(usedSecret), r.ServerID, r.Username, want, loginName)
+				}
+				addLabel("odd-secret-serverid-compared")
 			}
 		}
 		// rig sanity (vacuity guard, judged over the whole run in TestVerif_C08): clean
@@ -1065,7 +1083,7 @@ func c08GenName(t *rapid.T) string {
 
 func c08GenEncResp(t *rapid.T, bias int) c08Op {
 	tokens := []string{"correct", "correct", "correct", "correct", "wrong", "empty", "truncated", "extended", "plain", "garbage", "emptyarr"}
-	secrets := []string{"valid", "valid", "valid", "valid", "valid", "garbage", "plain", "emptyarr", "wrongkey", "len0", "len15", "len17", "len32"}
+	secrets := []string{"valid", "valid", "valid", "valid", "valid", "garbage", "plain", "emptyarr", "wrongkey", "len0", "len15", "len17", "len32", "len24"}
 	op := c08Op{Kind: "encresp"}
 	switch bias {
 	case 0: // clean
